@@ -236,8 +236,25 @@ pub fn case_strategy(size: Size) -> BoxedStrategy<Case> {
 // ------------------------------------------------------------------------------------------------
 // Driver
 
+/// Storage offset for candidate prefix `k` of a parameter: a pure function of the prefix, so that
+/// replays are exact. About half of the candidates are built from bit vectors whose storage starts
+/// inside a word (legal public API, `==` to the aligned input): whatever keys on the raw storage of
+/// a prefix (the IDPF caches) must not see a difference.
+pub fn prefix_head(b: &Bits, k: usize) -> usize {
+    let mut h = 0xcbf2_9ce4_8422_2325u64 ^ (k as u64).wrapping_mul(0x9e37_79b9_7f4a_7c15) ^ b.len as u64;
+    for x in b.bytes.0.iter().take(16) {
+        h = (h ^ *x as u64).wrapping_mul(0x0000_0100_0000_01b3);
+    }
+    h ^= h >> 29;
+    if h & 1 == 0 {
+        0
+    } else {
+        1 + ((h >> 8) % 63) as usize
+    }
+}
+
 pub fn make_param(spec: &AggParamSpec) -> Result<Poplar1AggregationParam, String> {
-    Poplar1AggregationParam::try_from_prefixes(spec.prefixes.iter().map(|b| b.idpf()).collect()).map_err(|e| format!("{e}"))
+    Poplar1AggregationParam::try_from_prefixes(spec.prefixes.iter().enumerate().map(|(k, b)| b.idpf_head(prefix_head(b, k))).collect()).map_err(|e| format!("{e}"))
 }
 
 pub struct PopRun {
@@ -332,7 +349,7 @@ pub fn run_generic<P: Xof<K> + 'static, const K: usize>(case: &Case, obs: &mut O
     for r in &case.reports {
         let nonce: [u8; 16] = arr_from(r.nonce_seed);
         let rand = bytes_from(r.rand_seed, rand_len(K));
-        match shard_wire(&vdaf, &case.ctx.0, &r.input.idpf(), &nonce, &rand) {
+        match shard_wire(&vdaf, &case.ctx.0, &r.input.idpf_head(prefix_head(&r.input, 977)), &nonce, &rand) {
             Ok(s) => {
                 if collect {
                     messages.push((Spec::IdpfPublic { kind: crate::codec::IdpfKind::Poplar, bits: case.bits }, s.public_share.clone()));
